@@ -3,7 +3,6 @@ import math
 from typing import Optional, Union
 
 import torch
-from torch.autograd.functional import jacobian
 from torch.distributions import Transform, constraints
 from torch.nn.functional import softplus
 
@@ -91,20 +90,8 @@ class CumSumExpTransform(Transform):
         return torch.cat((y_log[..., :1], y_log[..., 1:] - y_log[..., :-1]), -1)
 
     def log_abs_det_jacobian(self, x, y):
-        def f(xx):
-            return xx.cumsum(-1).exp()
-
-        # The Jacobian is triangular so we compute the determinant using the diagonal
-        if x.dim() == 1:
-            jac = jacobian(f, x)
-            return torch.diagonal(jac, 0).log().sum()
-        else:
-            return torch.stack(
-                [
-                    torch.diagonal(jacobian(f, x[i])).log().sum()
-                    for i in range(x.shape[0])
-                ]
-            )
+        # The Jacobian is triangular with diagonal dy_i/dx_i = y_i = exp(cumsum(x)_i)
+        return x.cumsum(-1).sum(-1)
 
 
 class SoftPlusTransform(Transform):
